@@ -121,6 +121,42 @@ FORMATS["vsix"]["classify"] = zip_v1_classify
 FORMATS["rpm"]["classify"] = P.rpm_classify
 
 
+def ps_classify(v0, v1):
+    try:
+        if v0[1] == v1[1] and v0[3] == v1[3] and v0[2] != v1[2]:
+            return "content-after-block"
+        if v0[2] == v1[2] and v0[3] == v1[3] and v1[1].startswith(v0[1]) and "<no CRLF before signature block>" in v1[1]:
+            return "byte-before-block"
+    except (TypeError, IndexError, AttributeError):
+        pass
+    return None
+
+
+def clearsign_classify(v0, v1):
+    try:
+        if v0[:3] == v1[:3] and v0[3] != v1[3]:
+            return "content-after-signature"
+    except (TypeError, IndexError):
+        pass
+    return None
+
+
+FORMATS["ps"]["classify"] = ps_classify
+FORMATS["pgp-clearsign"]["classify"] = clearsign_classify
+FORMATS["pgp-inline"]["classify"] = clearsign_classify
+
+
+def blank_etype(v):
+    """the view with every CMS eContentType blanked (to recognise findings that concern only that field)"""
+    if isinstance(v, tuple):
+        if len(v) == 2 and v[0] == "etype":
+            return ("etype", None)
+        return tuple(blank_etype(x) for x in v)
+    if isinstance(v, frozenset):
+        return frozenset(blank_etype(x) for x in v)
+    return v
+
+
 def region_of(regions, off):
     for s, e, l in regions:
         if s <= off < e:
